@@ -74,6 +74,9 @@ lastV == IF last.a \in {"Rx", "PacketOut", "PacketOutBuf"}
          ELSE <<last.a, last.args>>
 view == <<cfg, hasFlow, flow, fragDrop, held, lastV>>         \* model checking
 viewE == <<cfg, hasFlow, flow, fragDrop, held>>               \* edge export
+\* all paths to depth D: the history is part of the state (the code may carry
+\* history - caches, stale copies - that the abstract state does not distinguish)
+viewP == <<cfg, hasFlow, flow, fragDrop, held, hist>>
 
 Min(a, b) == IF a < b THEN a ELSE b
 IsOut(a) == a.t \in OutputTypes
